@@ -95,7 +95,7 @@ def setRoot (s : St) (l : Nat) (r : Nat) : St :=
   { s with blocks := s.blocks.map (fun b => if b.label == l then { b with root := r } else b) }
 
 /-- `GetActDatabase(hash).Put(account, height(hash))` (what `Manager.Save` does for each dirty account).
-    `fixed` selects the repaired `put` (never used by the driver of the real code). -/
+    `fixed = true` is the `put` /repo runs (since fix fb6e64c) and what the driver uses; `false` = the code before the fix. -/
 def putAcct (fixed : Bool) (s : St) (l : Nat) (key : Key) (addr val : Nat) : Res St :=
   match actDb s l with
   | .panic => .panic
